@@ -662,7 +662,12 @@ class IntDom:
             if a.c == 0:
                 return b
             for x, y in ((a, b), (b, a)):
-                if x.tz >= y.ubits and x.c is None or (x.c is not None and y.ubits <= (((x.c & -x.c).bit_length() - 1) if x.c else n)):
+                yub = y.ubits
+                yr = self._urng(y)
+                if yr is not None:
+                    yub = min(yub, yr[1].bit_length())
+                xtz = x.tz if x.c is None else ((((x.c & -x.c).bit_length() - 1) if x.c else n))
+                if x.lazy is None and y.lazy is None and xtz >= yub:
                     r = self.mk_u(n, self.U(x) + self.U(y))  # disjoint bit ranges: or == add
                     r.ubits = n
                     if x.cat is not None and y.cat is not None:
